@@ -10,35 +10,46 @@ open HTree
 
 namespace Forest
 
-structure Frame (f f' : Forest) (P V : List Nat) : Prop where
+/-- A value up to text content (consolidation rewrites the content of text nodes only). -/
+def _root_.XotModel.Value.shape : Value → Value
+  | .text _ => .text []
+  | v => v
+
+/-- Outside `P` every node keeps its parent and its value up to text content (hence its
+    liveness and kind); the flags are untouched and no handle is given back. -/
+structure Frame (f f' : Forest) (P : List Nat) : Prop where
   parent : ∀ x, x ∉ P → f'.parent? x = f.parent? x
-  live : ∀ x, x ∉ P → f'.isLive x = f.isLive x
-  value : ∀ x, x ∉ V → f'.value? x = f.value? x
+  shape : ∀ x, x ∉ P → (f'.value? x).map Value.shape = (f.value? x).map Value.shape
   corrupt : f'.corrupt = f.corrupt
   consolidation : f'.consolidation = f.consolidation
+  next_le : f.next ≤ f'.next
 
-theorem Frame.refl (f : Forest) (P V : List Nat) : Frame f f P V :=
-  ⟨fun _ _ => rfl, fun _ _ => rfl, fun _ _ => rfl, rfl, rfl⟩
+theorem Frame.refl (f : Forest) (P : List Nat) : Frame f f P :=
+  ⟨fun _ _ => rfl, fun _ _ => rfl, rfl, rfl, Nat.le_refl _⟩
 
-theorem Frame.trans {f f' f'' : Forest} {P V P' V' : List Nat} (a : Frame f f' P V)
-    (b : Frame f' f'' P' V') : Frame f f'' (P ++ P') (V ++ V') :=
+theorem Frame.trans {f f' f'' : Forest} {P P' : List Nat} (a : Frame f f' P)
+    (b : Frame f' f'' P') : Frame f f'' (P ++ P') :=
   ⟨fun x hx => by
       rw [List.mem_append, not_or] at hx
       rw [b.parent x hx.2, a.parent x hx.1],
    fun x hx => by
       rw [List.mem_append, not_or] at hx
-      rw [b.live x hx.2, a.live x hx.1],
-   fun x hx => by
-      rw [List.mem_append, not_or] at hx
-      rw [b.value x hx.2, a.value x hx.1],
-   by rw [b.corrupt, a.corrupt], by rw [b.consolidation, a.consolidation]⟩
+      rw [b.shape x hx.2, a.shape x hx.1],
+   by rw [b.corrupt, a.corrupt], by rw [b.consolidation, a.consolidation],
+   Nat.le_trans a.next_le b.next_le⟩
 
-theorem Frame.mono {f f' : Forest} {P V P' V' : List Nat} (a : Frame f f' P V)
-    (hP : ∀ x ∈ P, x ∈ P') (hV : ∀ x ∈ V, x ∈ V') : Frame f f' P' V' :=
-  ⟨fun x hx => a.parent x (fun h' => hx (hP x h')), fun x hx => a.live x (fun h' => hx (hP x h')),
-   fun x hx => a.value x (fun h' => hx (hV x h')), a.corrupt, a.consolidation⟩
+theorem Frame.mono {f f' : Forest} {P P' : List Nat} (a : Frame f f' P)
+    (hP : ∀ x ∈ P, x ∈ P') : Frame f f' P' :=
+  ⟨fun x hx => a.parent x (fun h' => hx (hP x h')), fun x hx => a.shape x (fun h' => hx (hP x h')),
+   a.corrupt, a.consolidation, a.next_le⟩
 
-theorem Frame.isRoot {f f' : Forest} {P V : List Nat} (a : Frame f f' P V) (w : f.W) (w' : f'.W)
+theorem Frame.live {f f' : Forest} {P : List Nat} (a : Frame f f' P) (x : Nat) (hx : x ∉ P) :
+    f'.isLive x = f.isLive x := by
+  rw [isLive_iff_value?, isLive_iff_value?]
+  have := a.shape x hx
+  cases h1 : f'.value? x <;> cases h2 : f.value? x <;> simp [h1, h2] at this ⊢
+
+theorem Frame.isRoot {f f' : Forest} {P : List Nat} (a : Frame f f' P) (w : f.W) (w' : f'.W)
     {x : Nat} (hx : x ∉ P) : f'.isRoot x = f.isRoot x := by
   have h1 := isRoot_iff w x
   have h2 := isRoot_iff w' x
@@ -50,12 +61,52 @@ theorem Frame.isRoot {f f' : Forest} {P V : List Nat} (a : Frame f f' P V) (w : 
     | false => rfl
     | true => rw [h1.2 (h2.1 h')] at h; cases h
 
-theorem Frame.textOf {f f' : Forest} {P V : List Nat} (a : Frame f f' P V) {x : Nat} (hx : x ∉ V) :
-    f'.textOf x = f.textOf x := by
-  unfold Forest.textOf; rw [a.value x hx]
+theorem shape_isElement (v : Value) : v.shape.isElement = v.isElement := by cases v <;> rfl
+theorem shape_isDocument (v : Value) : v.shape.isDocument = v.isDocument := by cases v <;> rfl
+theorem shape_isText (v : Value) : v.shape.isText = v.isText := by cases v <;> rfl
+theorem shape_category (v : Value) : v.shape.category = v.category := by cases v <;> rfl
+theorem shape_isNormal (v : Value) : v.shape.isNormal = v.isNormal := by cases v <;> rfl
+
+/-- Any function of the shape is kept. -/
+theorem Frame.viaShape {f f' : Forest} {P : List Nat} (a : Frame f f' P) {x : Nat} (hx : x ∉ P)
+    {β : Type} (g : Value → β) (hg : ∀ v, g v.shape = g v) :
+    (f'.value? x).map g = (f.value? x).map g := by
+  have := a.shape x hx
+  cases h1 : f'.value? x <;> cases h2 : f.value? x <;> simp [h1, h2] at this ⊢
+  rw [← hg, this, hg]
+
+theorem Frame.isElement {f f' : Forest} {P : List Nat} (a : Frame f f' P) {x : Nat} (hx : x ∉ P) :
+    f'.isElement x = f.isElement x := by
+  unfold Forest.isElement; rw [a.viaShape hx _ shape_isElement]
+
+theorem Frame.isDocument {f f' : Forest} {P : List Nat} (a : Frame f f' P) {x : Nat} (hx : x ∉ P) :
+    f'.isDocument x = f.isDocument x := by
+  unfold Forest.isDocument; rw [a.viaShape hx _ shape_isDocument]
+
+theorem Frame.isText {f f' : Forest} {P : List Nat} (a : Frame f f' P) {x : Nat} (hx : x ∉ P) :
+    f'.isText x = f.isText x := by
+  unfold Forest.isText; rw [a.viaShape hx _ shape_isText]
+
+theorem Frame.isNormalNode {f f' : Forest} {P : List Nat} (a : Frame f f' P) {x : Nat}
+    (hx : x ∉ P) : f'.isNormalNode x = f.isNormalNode x := by
+  unfold Forest.isNormalNode; rw [a.viaShape hx _ shape_isNormal]
+
+theorem Frame.category {f f' : Forest} {P : List Nat} (a : Frame f f' P) {x : Nat} (hx : x ∉ P) :
+    (f'.value? x).map Value.category = (f.value? x).map Value.category :=
+  a.viaShape hx _ shape_category
+
+theorem textOf_isSome (f : Forest) (x : Nat) : (f.textOf x).isSome = f.isText x := by
+  unfold Forest.textOf Forest.isText
+  cases h : f.value? x with
+  | none => rfl
+  | some v => cases v <;> rfl
+
+theorem Frame.textOf_isSome {f f' : Forest} {P : List Nat} (a : Frame f f' P) {x : Nat}
+    (hx : x ∉ P) : (f'.textOf x).isSome = (f.textOf x).isSome := by
+  rw [Forest.textOf_isSome, Forest.textOf_isSome, a.isText hx]
 
 /-- The ancestor chain of a node is kept when the whole chain lies outside `S`. -/
-theorem Frame.ancestors {f f' : Forest} {P V : List Nat} (a : Frame f f' P V) (w : f.W) (w' : f'.W) :
+theorem Frame.ancestors {f f' : Forest} {P : List Nat} (a : Frame f f' P) (w : f.W) (w' : f'.W) :
     ∀ (l : List Nat) (x : Nat), f.ancestors x = l → f.isLive x = true → (∀ y ∈ l, y ∉ P) →
       f'.ancestors x = l
   | [], x, e, hl, _ => by
@@ -79,18 +130,33 @@ theorem Frame.ancestors {f f' : Forest} {P V : List Nat} (a : Frame f f' P V) (w
       have hq : f.ancestors q = l := by injection e
       rw [Frame.ancestors a w w' l q hq (parent?_live hp).2 (fun z hz => hS z (List.mem_cons_of_mem _ hz)), hy]
 
-theorem Frame.ancestors' {f f' : Forest} {P V : List Nat} (a : Frame f f' P V) (w : f.W) (w' : f'.W)
+theorem Frame.ancestors' {f f' : Forest} {P : List Nat} (a : Frame f f' P) (w : f.W) (w' : f'.W)
     {x : Nat} (hl : f.isLive x = true) (hS : ∀ y ∈ f.ancestors x, y ∉ P) :
     f'.ancestors x = f.ancestors x :=
   Frame.ancestors a w w' _ x rfl hl hS
 
-theorem setValue_frame (f : Forest) (h : Nat) (v : Value) : Frame f (f.setValue h v) [] [h] :=
-  ⟨fun x _ => setValue_parent? f h v x, fun x _ => setValue_isLive f h v x,
+theorem setValue_frame (f : Forest) (h : Nat) (v : Value) : Frame f (f.setValue h v) [h] :=
+  ⟨fun x _ => setValue_parent? f h v x,
    fun x hx => by
      rw [setValue_value?]
      have : x ≠ h := by simpa using hx
      simp [this],
-   rfl, rfl⟩
+   rfl, rfl, Nat.le_refl _⟩
+
+/-- Rewriting the content of a text node changes no shape at all. -/
+theorem setValue_frame_text (f : Forest) {h : Nat} {a : Str} (ht : f.textOf h = some a) (s : Str) :
+    Frame f (f.setValue h (.text s)) [] :=
+  ⟨fun x _ => setValue_parent? f h _ x,
+   fun x _ => by
+     rw [setValue_value?]
+     by_cases hx : x = h
+     · subst hx
+       unfold Forest.textOf at ht
+       cases hv : f.value? x with
+       | none => rw [hv] at ht; cases ht
+       | some v => cases v <;> simp [hv, Value.shape] at ht ⊢
+     · simp [hx],
+   rfl, rfl, Nat.le_refl _⟩
 
 /-- A proper ancestor has children. -/
 theorem ancestors_proper_kids {f : Forest} (w : f.W) : ∀ (l : List Nat) (x a : Nat),
